@@ -135,6 +135,10 @@ func AssocSetup(seq uint32, nodeID string) *message.AssociationSetupRequest {
 
 // NodeIDIE builds a Node ID IE from an IPv4 string or FQDN.
 func NodeIDIE(id string) *ie.IE {
+	if id == "" {
+		// FQDN type with an empty name
+		return ie.New(ie.NodeID, []byte{2, 0})
+	}
 	if ip := net.ParseIP(id); ip != nil && ip.To4() != nil {
 		return ie.NewNodeID(id, "", "")
 	}
